@@ -476,3 +476,47 @@ fn c09_nonsync_absorbing() {
     kani::assert(a.writer.last == b.writer.last, "C09.absorb.next_publication");
     kani::cover!(true, "C09.cover.absorb_end");
 }
+
+// =============================================================================================
+// C07 -- published bound = |offset| + dispersion + delay/2, in ns, rounded up
+// =============================================================================================
+fn c07_bound(exp_o: i32, coef_o: i32, exp_d: i32, coef_d: i32, exp_e: i32, coef_e: i32) -> i64 {
+    let mut t = any_tracking();
+    t.current_correction = wire(exp_o, coef_o);
+    t.root_delay = wire(exp_d, coef_d);
+    t.root_dispersion = wire(exp_e, coef_e);
+    unsafe {
+        ELAPSED_IS_OK = true;
+        ELAPSED_SECS = 0;
+        ELAPSED_NANOS = 0;
+    }
+    extract_bound_from_tracking(t).0
+}
+
+/// Wire exponents of the "meaningful range" of DESIGN.md (C07): values below 2^13 s with a
+/// resolution of at least 2^-60 s.  wire exponent e encodes coef * 2^(e-25).
+fn meaningful_exp(e: i32) -> bool {
+    -35 <= e && e <= 13
+}
+
+fn any_coef_nonneg() -> i32 {
+    let c: i32 = kani::any();
+    kani::assume(0 <= c && c < (1 << 24));
+    c
+}
+
+/// never negative for non-negative delay and dispersion, either sign of the offset
+#[kani::proof]
+#[kani::stub(std::time::SystemTime::elapsed, stub_elapsed)]
+#[kani::stub(f64::powi, stub_powi)]
+fn c07_nonneg() {
+    let (eo, ed, ee): (i32, i32, i32) = (kani::any(), kani::any(), kani::any());
+    kani::assume(meaningful_exp(eo) && meaningful_exp(ed) && meaningful_exp(ee));
+    let co: i32 = kani::any();
+    kani::assume(-(1 << 24) < co && co < (1 << 24));
+    let (cd, ce) = (any_coef_nonneg(), any_coef_nonneg());
+    let b = c07_bound(eo, co, ed, cd, ee, ce);
+    kani::assert(b >= 0, "C07.kani.never_negative");
+    kani::cover!(co < 0, "C07.cover.negative_offset");
+}
+
